@@ -18,13 +18,14 @@ TRUSTED_BASE = [
     "extraction (ExtrOcamlBasic only) and the OCaml integer driver",
 ]
 ASSUMPTIONS = ["interpreter stack: 1000 frames suffice for nesting 32", "match()/search() results are an oracle in the model (C11)"]
-TECHNIQUE = "model with explicit crash sites + differential classification of every exception on garbage, near-miss and deeply nested inputs; Coq theorem that evaluation of well-typed queries never errs"
+TECHNIQUE = "model with explicit crash sites and explicit loop fuel; Coq theorems that compile() and find() of the model are total (no crash, fuel never exhausted, only JSONPathError outcomes); differential classification of every exception on garbage, near-miss and deeply nested inputs ties the model to the code"
 LEVEL = "proof"
-LEVEL_TEXT = ("Proved: C13_compile_no_other_exception (for every text of scalar values the model's compile() never ends in an exception other than a JSONPathError: no IndexError from the lexer's filter stack or "
-              "the string decoder, no KeyError escaping the parser), C13_find_total_compiled (the query of every text that compiles evaluates to a nodelist on every well-formed value within the depth limit), "
-              "C13_tokenize_terminates (the lexer's state machine stops on every text: a potential function decreases at every transition), C13_eval_total_partial, C13_error_str_total. NOT proved (partial): that the fuel the model gives the PARSER's recursion always suffices (termination of the parser), decided by correspondence - on every "
-              "generated string the implementation and the model agree on returned / error class / offset, and no other exception type escapes.")
-LEVEL_NOTE = "Partial for compile(). Trusted: Coq kernel; crash-site modelling; interpreter stack assumption; correspondence; extraction and driver."
+LEVEL_TEXT = ("Proved for the model, for every input: C13_compile_total (compile() of any text of scalar values returns a query or raises a JSONPathError: C13_compile_no_other_exception - no IndexError from the "
+              "lexer's filter stack or the string decoder, no KeyError escaping the parser - plus termination: C13_tokenize_terminates, a potential function on lexer states, and C13_parse_terminates, "
+              "5 * remaining tokens + rank bounds the depth of the fourteen mutually recursive parse functions); C13_find_total (find() of a compiled query on ANY well-formed value, however deep, returns a "
+              "nodelist or raises JSONPathRecursionError); C13_env_find_total (the two composed); C13_find_total_compiled, C13_eval_total_partial, C13_error_str_total. The model (with its explicit Crash "
+              "sites) is tied to the code by correspondence - on every generated string the implementation and the model agree on returned / error class / offset, and no other exception type escapes.")
+LEVEL_NOTE = "Trusted: Coq kernel; crash-site modelling (which Python operations can raise what); interpreter stack assumption (recursion depth of CPython itself is outside the model); correspondence; extraction and driver."
 norm_reply = harness.norm_reply
 
 VALUES = [None, True, False, 0, 1, -1.5, "", "a", [], [1], {}, {"a": 1}, [0, False, "", None, [], {}, "x", 2.5, {"a": {"b": [1, {"a": None}]}}, [[1, 2], ["a"]]],
